@@ -18,8 +18,8 @@ def Instr.boring : Instr → Bool
 def PushedOK (c c' : Cfg) : Instr → Prop
   | .callH h d s => (∃ k, c.code.head? = some (.gCall s .live k) ∧ (handlersOf c.L s.cls)[k]? = some (h, d) ∧
         c'.code = .callH h d s :: .gCall s .live (k + 1) :: c.code.tail) ∧ (s.cls, h, d) ∈ c.L.handlers ∧ c.L.forceQuit = false
-  | .gCall s hs _ => (∃ k0, c.code.head? = some (.gCall s hs k0)) ∨
-      (∃ q g, c.code.head? = some (.runH q g) ∧ g.sig = s ∧ g.hs = hs ∧ c.L.forceQuit = false)
+  | .gCall s hs k => (∃ k0, c.code.head? = some (.gCall s hs k0) ∧ k = k0 + 1) ∨
+      (∃ q g, c.code.head? = some (.runH q g) ∧ g.sig = s ∧ g.hs = hs ∧ c.L.forceQuit = false ∧ k = 0)
   | .gDisp q e g => (∃ mode, c.code.head? = some (.gIter q mode)) ∧ ∃ p att batch, Tr.iter q e p att batch ∈ c'.tr ∧ g ∈ batch
   | _ => False
 
@@ -31,9 +31,19 @@ def LoudOK (c : Cfg) : Tr → Prop
   | .disp q e g => c.code.head? = some (.gDisp q e g)
   | _ => True
 
+/-- how the ticket lines change: only `take_ticket` (`procWait`), a released wait (`gWait`), and the epilogue of
+`_run_handlers` (`endRun`: `mark_line_to_go`) touch them -/
+def TicketOK (c : Cfg) (ts : List Ticket) : Prop :=
+  match c.code.head? with
+  | some (.procWait cls) => ts = c.L.tickets ++ [({ line := cls, id := c.L.tcounter, marked := false } : Ticket)]
+  | some (.gWait cls t _) => ts = c.L.tickets.filter fun k => ¬ (k.line = cls ∧ k.id = t)
+  | some (.endRun _ g) => ts = mark c.L.tickets g.sig.cls
+  | _ => False
+
 structure StepFacts (c c' : Cfg) : Prop where
+  tickets : c'.L.tickets = c.L.tickets ∨ TicketOK c c'.L.tickets
   tr : ∃ new, c'.tr = new ++ c.tr ∧ ∀ t ∈ new, t.quiet = false → LoudOK c t
-  handlers : ∀ x ∈ c.L.handlers, x ∈ c'.L.handlers
+  handlers : c.L.handlers <+: c'.L.handlers
   code : ∀ i ∈ c'.code, i.boring = false → i ∈ c.code.tail ∨ PushedOK c c' i
   fq : c.L.forceQuit = true → c.code.head? ≠ some .apprun → c'.L.forceQuit = true
   fqSet : c.L.forceQuit = false → c'.L.forceQuit = true → c.code.head? = some (.act .forceQuit)
@@ -44,18 +54,19 @@ structure StepFacts (c c' : Cfg) : Prop where
 
 /-- `X` is reached from `c0` by helper effects and loud events that the head instruction of `c0` justifies -/
 structure KeepL (c0 X : Cfg) : Prop where
-  handlers : ∀ x ∈ c0.L.handlers, x ∈ X.L.handlers
+  handlers : c0.L.handlers <+: X.L.handlers
   fq : X.L.forceQuit = c0.L.forceQuit
+  tickets : X.L.tickets = c0.L.tickets ∨ TicketOK c0 X.L.tickets
   tr : ∃ new, X.tr = new ++ c0.tr ∧ ∀ t ∈ new, t.quiet = false → LoudOK c0 t
 
 theorem Keep.toL {c0 X : Cfg} (h : Keep c0 X) : KeepL c0 X := by
   obtain ⟨new, e, hq⟩ := h.tr
-  exact ⟨h.handlers, h.fq, new, e, fun t ht hl => by rw [hq t ht] at hl; cases hl⟩
+  exact ⟨h.handlers, h.fq, Or.inl h.tickets, new, e, fun t ht hl => by rw [hq t ht] at hl; cases hl⟩
 
 theorem KeepL.trans {c0 X Y : Cfg} (h1 : KeepL c0 X) (h2 : Keep X Y) : KeepL c0 Y := by
   obtain ⟨n1, e1, q1⟩ := h1.tr
   obtain ⟨n2, e2, q2⟩ := h2.tr
-  refine ⟨fun x hx => h2.handlers x (h1.handlers x hx), h2.fq.trans h1.fq, n2 ++ n1, by simp [e2, e1], ?_⟩
+  refine ⟨h1.handlers.trans h2.handlers, h2.fq.trans h1.fq, by rw [h2.tickets]; exact h1.tickets, n2 ++ n1, by simp [e2, e1], ?_⟩
   intro t ht hl
   rcases List.mem_append.1 ht with h | h
   · rw [q2 t h] at hl; cases hl
@@ -63,12 +74,12 @@ theorem KeepL.trans {c0 X Y : Cfg} (h1 : KeepL c0 X) (h2 : Keep X Y) : KeepL c0 
 
 /-- one loud event justified by the head of `c0` -/
 theorem KeepL.loud {c0 X : Cfg} (t : Tr) (hl : LoudOK c0 t) (h1 : X.L.handlers = c0.L.handlers) (h2 : X.L.forceQuit = c0.L.forceQuit)
-    (h3 : X.tr = t :: c0.tr) : KeepL c0 X :=
-  ⟨fun x hx => h1 ▸ hx, h2, [t], by simp [h3], by intro t' ht' _; simp at ht'; subst ht'; exact hl⟩
+    (h3 : X.tr = t :: c0.tr) (h4 : X.L.tickets = c0.L.tickets := by rfl) : KeepL c0 X :=
+  ⟨by rw [h1]; exact List.prefix_refl _, h2, Or.inl h4, [t], by simp [h3], by intro t' ht' _; simp at ht'; subst ht'; exact hl⟩
 
 theorem facts_gen {c0 X : Cfg} {ins : Instr} {rest : List Instr} (hc : c0.code = ins :: rest) (hk : KeepL c0 X)
     (hcode : ∀ i ∈ X.code, i.boring = false → i ∈ rest ∨ PushedOK c0 X i) : StepFacts c0 X :=
-  ⟨hk.tr, hk.handlers, fun i hi hb => by rw [hc]; exact hcode i hi hb, fun hf _ => by rw [hk.fq]; exact hf,
+  ⟨hk.tickets, hk.tr, hk.handlers, fun i hi hb => by rw [hc]; exact hcode i hi hb, fun hf _ => by rw [hk.fq]; exact hf,
     fun h1 h2 => by rw [hk.fq, h1] at h2; cases h2⟩
 
 theorem facts_push {c0 X : Cfg} {ins : Instr} {rest : List Instr} (hc : c0.code = ins :: rest) (pushed : List Instr)
@@ -165,7 +176,7 @@ theorem doAct_facts {c0 : Cfg} {a : Act} {rest : List Instr} (hc : c0.code = .ac
     | none => exact facts_push hc _ (by simp [Instr.boring]) s0 k0
     | some cls => exact facts_push hc _ (by simp [Instr.boring]) s0 k0
   | forceQuit =>
-    refine ⟨⟨[_], rfl, by simp [Tr.quiet]⟩, fun x hx => hx, fun i hi _ => ?_, fun _ _ => rfl, fun _ _ => by simp [hc]⟩
+    refine ⟨Or.inl rfl, ⟨[_], rfl, by simp [Tr.quiet]⟩, List.prefix_refl _, fun i hi _ => ?_, fun _ _ => rfl, fun _ _ => by simp [hc]⟩
     left; rw [hc]; exact hi
   | raiseExit => exact facts_good hc (raise_good _ _) s0 k0
   | raiseErr => exact facts_good hc (raise_good _ _) s0 k0
